@@ -166,6 +166,22 @@ impl<'a, H: HashChain> InMemoryHssSignature<'a, H> {
 
         let signature = InMemoryLmsSignature::<'a, H>::new(data.get(index..)?)?;
 
+        // The signature must not be followed by further data (RFC 8554, Algorithm 6a, step 2i)
+        index += lms_signature_length(
+            signature
+                .lmots_signature
+                .lmots_parameter
+                .get_hash_function_output_size(),
+            signature
+                .lmots_signature
+                .lmots_parameter
+                .get_num_winternitz_chains() as usize,
+            signature.lms_parameter.get_tree_height() as usize,
+        );
+        if index != data.len() {
+            return None;
+        }
+
         Some(Self {
             level,
             signed_public_keys,
